@@ -33,7 +33,7 @@ def run(ck):
     if quick and (kinds.index(c["companion"]) + groups.index((c["blocks"], c["scales"]))) % 2:
       continue
     for opt in ("ds", "tf"):
-      jobs.append({"opt": opt, "case": c, "seed": ck.seed * 1000 + i, "quick": quick, "eigh": bool((i // 2) % 2), "shard_leg": (i % 8 == 0),
+      jobs.append({"opt": opt, "case": c, "seed": ck.seed * 1000 + i, "quick": quick, "eigh": bool((i // 2) % 2), "shard_leg": (len(jobs) % 16 == 0),      # every 8th kept case (two jobs per case)
                    "middle": bool((i // 4) % 2),      # 2x2 layouts: every other one as (2b, 2, 2b)
                    "graft": {"ds": ["SGD", "RMSPROP", "ADAGRAD"][i % 3], "tf": ["SGD", "RMSPROP"][i % 2]}[opt]})
   ck.sample({"case_from_TLC": cases[3], "meaning": "blocked target, per-block scales, companion"})
